@@ -38,14 +38,46 @@ Inductive mview :=
 | VSlot
 | VAbsent.
 
+Definition ends_in_pass_on (w : world) (f : nat) : bool :=
+  match rev (chain w f) with
+  | i :: _ => match get_func w i with
+              | Some fo => match fo_role fo with FPassOn => true | _ => false end
+              | None => false
+              end
+  | [] => false
+  end.
+
+(** the member as it is reached at run time: a pass-on method continues with the classes after its owner, so the
+    contracts in force are those of the definition found there *)
+Fixpoint view_along (w : world) (ks : list nat) (name : string) : mview :=
+  match ks with
+  | [] => if str_in name object_slots then VSlot else VAbsent
+  | k :: r =>
+      match get_class w k with
+      | Some c =>
+          match ns_get (co_ns c) name with
+          | Some (MemFunc kd f) =>
+              let v := view_func w f in
+              if ends_in_pass_on w f
+              then match view_along w r name with
+                   | VFunc _ v' => VFunc kd {| fv_chain := fv_chain v ++ fv_chain v'; fv_pre := fv_pre v';
+                                               fv_snaps := fv_snaps v'; fv_post := fv_post v';
+                                               fv_intro := fv_intro v'; fv_meta := fv_meta v |}
+                   | _ => VFunc kd v
+                   end
+              else VFunc kd v
+          | Some (MemProp g s d) =>
+              VProp (option_map (view_func w) g) (option_map (view_func w) s) (option_map (view_func w) d)
+          | Some (MemSlot _) => VSlot
+          | None => view_along w r name
+          end
+      | None => view_along w r name
+      end
+  end.
+
 Definition view_member (w : world) (k : nat) (name : string) : mview :=
   if negb (is_live w k) then VAbsent else     (* a class statement that raised bound nothing *)
-  match class_getattr w k name with
-  | Some (MemFunc kd f) => VFunc kd (view_func w f)
-  | Some (MemProp g s d) => VProp (option_map (view_func w) g) (option_map (view_func w) s) (option_map (view_func w) d)
-  | Some (MemSlot _) => VSlot
-  | None => VAbsent
-  end.
+  view_along w (mro_of w k) name.
 
 (** the class (lowest index) whose list object is the very same as the one this class sees *)
 Definition list_owner (w : world) (k : nat) (which : inv_list) : option nat :=
@@ -95,7 +127,7 @@ Definition run_ecase (c : ecase) : list (option string * wview) := run_history e
 (** ** comparison *)
 Definition frole_eqb (a b : frole) : bool :=
   match a, b with
-  | FOrig, FOrig | FChecker, FChecker | FNewWrap, FNewWrap => true
+  | FOrig, FOrig | FChecker, FChecker | FNewWrap, FNewWrap | FPassOn, FPassOn => true
   | FForeign x, FForeign y => Nat.eqb x y
   | FInvWrap x, FInvWrap y => Bool.eqb x y
   | _, _ => false
